@@ -180,7 +180,7 @@ def main():
                 caught = {}
                 for p in props:
                     t0 = time.time()
-                    r = sh(f"cd {VERIF} && timeout 1800 ./check {p} quick 2>&1 | tail -30")
+                    r = sh(f"cd {VERIF} && VERIF_EVIDENCE_DIR={VERIF}/out/evidence-mutants timeout 1800 ./check {p} quick 2>&1 | tail -30")
                     viol = [l for l in r.stdout.splitlines() if l.startswith("VIOLATION")]
                     harness = [l for l in r.stdout.splitlines() if "HARNESS-ERROR" in l]
                     caught[p] = {"violations": len(viol), "harness_errors": len(harness), "seconds": round(time.time() - t0, 1),
